@@ -254,6 +254,20 @@ func runC12(c *fw.Case) {
 				break
 			}
 		}
+		// the SAME random-access reader is used further after reads that failed: the intact records are requested again
+		// (twice, newest first), interleaved with repeated requests for the damaged one
+		for pass := 0; pass < 2 && kind == "truncate"; pass++ {
+			for i := okUpTo - 1; i >= 0; i-- {
+				got, err := mr.ReadNextAt(offs[i])
+				if err != nil || !sameRec(got, recs[i]) {
+					c.Violate("recordio/"+kind+"/mmap/intact-record-lost-after-a-failed-read"+feat, "%s %s: ReadNextAt(record %d) = (%s,%v) want %s — on a reader whose earlier read of the cut record had failed", cfg, what, i, fw.Hex(got), err, fw.Hex(recs[i]))
+					return
+				}
+				if okUpTo < len(recs) && offs[okUpTo] <= uint64(len(data)) {
+					_, _ = mr.ReadNextAt(offs[okUpTo])
+				}
+			}
+		}
 	}
 
 	// (a) truncations
